@@ -16,7 +16,7 @@ def _shard(args):
                        stdout=subprocess.PIPE, stderr=subprocess.PIPE, text=True)
     if p.returncode != 0:
         raise common.ToolError("replay_t failed on %s: %s" % (scripts_path, p.stderr[-2000:]))
-    r = tlc.run("/verif/spec/trace/CfdpTrace.tla", "/verif/spec/trace/CfdpTrace.cfg", tlcdir,
+    r = tlc.run(common.VERIF + "/spec/trace/CfdpTrace.tla", common.VERIF + "/spec/trace/CfdpTrace.cfg", tlcdir,
                 workers=1, xmx="3g", timeout=3600, env={"TRACE": trace_path}, jvm=JVM)
     viol, consumed = [], None
     for tag, v in tlc.tagged(r.text, ("VIOL", "CONSUMED", "DRIFT")):
